@@ -31,6 +31,48 @@ type driver struct {
 	w       *bufio.Writer
 	steps   int
 	alien   int
+	// slice headers of the built-in lists (hook VerifSpine), logged as deltas for spec/SliceTrace.tla
+	sw     *bufio.Writer
+	spine  map[int][3]int
+	arrIDs map[uintptr]int
+}
+
+// logSpine writes the headers that are new or changed since the previous step
+func (d *driver) logSpine(o model.Op, panicked bool) {
+	if d.sw == nil {
+		return
+	}
+	changed := [][4]int{}
+	for id := 1; id < d.next; id++ {
+		l, ok := d.real.Fwd[id].(at.List)
+		if !ok {
+			continue
+		}
+		n, c, ptr := at.VerifSpine(l)
+		if n < 0 {
+			continue // a derived list: the header sits in the embedded value, which the harness does not hold
+		}
+		arr := 0
+		if c > 0 {
+			arr, ok = d.arrIDs[ptr]
+			if !ok {
+				arr = len(d.arrIDs) + 1
+				d.arrIDs[ptr] = arr
+			}
+		}
+		h := [3]int{n, c, arr}
+		if old, known := d.spine[id]; !known || old != h {
+			d.spine[id] = h
+			changed = append(changed, [4]int{id, n, c, arr})
+		}
+	}
+	k := len(o.Vs)
+	if o.Op == "Delete" {
+		k = len(o.Ks)
+	}
+	b, _ := json.Marshal(map[string]any{"t": "op", "op": o.Op, "r": o.R, "i": o.I, "k": k, "p": panicked, "sp": changed})
+	d.sw.Write(b)
+	d.sw.WriteByte('\n')
 }
 
 func (d *driver) bindNew(x any) int {
@@ -681,6 +723,7 @@ func (d *driver) logStep(o model.Op, panicked bool, rv model.Val, prev model.Hea
 	d.w.Write(b)
 	d.w.WriteByte('\n')
 	d.steps++
+	d.logSpine(o, panicked)
 }
 
 func (d *driver) step() bool {
@@ -711,6 +754,7 @@ func cmdDrive(args []string) int {
 	derived := fs.Int("derived", 0, "0 plain, 1/2: containers are derived structs")
 	summary := fs.String("out", "", "summary file")
 	bigObj := fs.Bool("bigobj", false, "objects with up to -nkeys generated keys, bulk Set/Unset/Pluck (no Keys/Values)")
+	spineOut := fs.String("spine", "", "ndjson file for the slice headers of the built-in lists (spec/SliceTrace.tla)")
 	scenarios := fs.Bool("scenarios", false, "append scripted scenarios: Equals on lists of ~2050 elements, nesting chains of depth ~140/260")
 	fs.Parse(args)
 	f, err := os.Create(*outTrace)
@@ -719,6 +763,17 @@ func cmdDrive(args []string) int {
 		return 2
 	}
 	w := bufio.NewWriterSize(f, 1<<20)
+	var sw *bufio.Writer
+	if *spineOut != "" {
+		sf, err := os.Create(*spineOut)
+		if err != nil {
+			fmt.Fprintln(os.Stderr, err)
+			return 2
+		}
+		defer sf.Close()
+		sw = bufio.NewWriterSize(sf, 1<<20)
+		defer sw.Flush()
+	}
 	total, aliens := 0, 0
 	var sizes []int
 	run := func(p int, big bool, nsteps int) {
@@ -729,9 +784,12 @@ func cmdDrive(args []string) int {
 			t = conc.NewGen(*nkeys)
 			gen = 1
 		}
-		d := &driver{rng: rng, real: heapx.New(t, nil, *nkeys, *derived), nkeys: *nkeys, next: 1, big: big, bigObj: *bigObj, maxList: 40, w: w}
+		d := &driver{rng: rng, real: heapx.New(t, nil, *nkeys, *derived), nkeys: *nkeys, next: 1, big: big, bigObj: *bigObj, maxList: 40, w: w, sw: sw, spine: map[int][3]int{}, arrIDs: map[uintptr]int{}}
 		if big {
 			d.maxList = 700
+		}
+		if sw != nil {
+			fmt.Fprintln(sw, `{"t":"reset","op":"","r":0,"i":0,"k":0,"p":false,"sp":[]}`)
 		}
 		fmt.Fprintf(w, "{\"t\":\"reset\",\"nkeys\":%d,\"derived\":%d,\"cseed\":%d,\"gen\":%d}\n", *nkeys, *derived, *seed+int64(p), gen)
 		logged := func(o model.Op) {
